@@ -1,29 +1,24 @@
 //! Scratch bring-up probes (not a registered check).
-use crate::dec::*;
-use jxlw::frame::*;
-use jxlw::headers::*;
-use jxlw::modular::*;
+use crate::c07::*;
+use crate::explore::Tape;
+use jxl_oxide::{JxlImage, JxlThreadPool};
+use std::sync::{Arc, Mutex};
 
 pub fn main(_args: &crate::Args) {
     crate::util::install_panic_hook();
-    for gs in 0..3u32 {
-    for (w, h) in [(17usize, 17usize), (130, 5), (5, 130), (130, 130), (257,129), (300,70), (200,200), (129,1)] {
-        let img = ImageHeader::simple(w as u32, h as u32, true, 8);
-        let ch = Channel::from_fn(w, h, |x, y| ((x * 37 + y * 91 + x * y * 13) % 256) as i32);
-        let mut fh = FrameHeader::modular_lossless(&img);
-        fh.group_size_shift = gs;
-        let mut spec = ModularFrameSpec::new(fh, vec![ch]);
-        spec.tree = Node::leaf(5);
-        spec.code.use_prefix = false;
-        let f = write_modular_frame(&img, &spec);
-        let bytes = write_codestream(&img, &Sel::default(), &[f.bytes.clone()]);
-        match decode_planes(&bytes, &DecOpts::default()) {
-            Ok(kf) => {
-                let ok = matches!(&kf[0][0], Plane::Int { data, .. } if *data == f.channels[0].data);
-                println!("gs{gs} {w}x{h} sections={}: {}", f.num_sections, if ok { "ok" } else { "MISMATCH" });
-            }
-            Err(e) => println!("gs{gs} {w}x{h} sections={}: ERR {}", f.num_sections, &e[e.len().saturating_sub(40)..]),
-        }
+    let scs = scenarios(false);
+    let sc = scs.iter().find(|s| s.name == "rgb-130x130-groups-localtree-corrupt-section3").unwrap();
+    let img = JxlImage::builder().pool(JxlThreadPool::none()).read(&sc.bytes[..]).unwrap();
+    println!("none first: {:?}", img.render_frame(0).map(|_| ()).map_err(|e| e.to_string()));
+    println!("render_all none: {:?}", render_all(&sc.bytes, JxlThreadPool::none()));
+    println!("render_all none: {:?}", render_all(&sc.bytes, JxlThreadPool::none()));
+    for tape in [vec![], vec![3u32, 0, 1, 0, 1, 0, 0, 0], vec![1, 0, 0, 0, 0, 0, 0, 0], vec![3, 0, 0, 0, 0, 0], vec![2, 0, 0, 0, 0, 0, 0]] {
+        let hooks = Arc::new(TapeHooks { tape: Mutex::new(Tape::from_answers(&tape)), picks: Mutex::new(vec![]) });
+        let pool = JxlThreadPool::verif(hooks.clone());
+        let img = JxlImage::builder().pool(pool).read(&sc.bytes[..]).unwrap();
+        let r = img.render_frame(0);
+        println!("tape {:?}: {} picks {:?}", tape, match &r { Ok(_) => "ok".to_string(), Err(e) => format!("ERR {e}") }, hooks.picks.lock().unwrap());
     }
-    }
+    let img = JxlImage::builder().pool(JxlThreadPool::none()).read(&sc.bytes[..]).unwrap();
+    println!("none: {:?}", img.render_frame(0).map(|_| ()).map_err(|e| e.to_string()));
 }
